@@ -66,6 +66,7 @@ unsigned memdiff(const unsigned char *a, const unsigned char *b, size_t n) { (vo
 const char *esc_tag(const char *str, char *buffer) { (void)buffer; return str; }
 void state_usage_file(struct snapraid_state *state, struct snapraid_disk *disk, struct snapraid_file *file) { (void)state; (void)disk; (void)file; }
 void state_usage_hash(struct snapraid_state *state) { (void)state; }
+void state_usage_raid(struct snapraid_state *state) { (void)state; }
 #endif
 
 /* the REAL translation unit */
